@@ -96,9 +96,9 @@ def build_model():
     return r.returncode == 0, (r.stdout + r.stderr)[-3000:]
 
 # ----------------------------------------------------------------------------- evidence
-def write_evidence(pid, tier, seed, cov, wall, violations, assumptions):
+def write_evidence(pid, tier, seed, cov, wall, violations, assumptions, level='proof'):
     os.makedirs(os.path.join(V, 'evidence'), exist_ok=True)
-    ev = dict(property_id=pid, tier=tier, seed=seed, level='proof', coverage=cov, assumptions=assumptions,
+    ev = dict(property_id=pid, tier=tier, seed=seed, level=level, coverage=cov, assumptions=assumptions,
               wall_s=round(wall, 2), violations=violations)
     with open(os.path.join(V, 'evidence', pid + '.json'), 'w') as f:
         json.dump(ev, f, indent=1)
@@ -662,7 +662,7 @@ def check_C07(tier, seed):
                rule='T3: for every operation of every generated script (configs %s) a forked child injects one fault and judges the outcome: kind 1 = the k-th allocation through the table\'s allocator fails, for k = 1.. until the operation no longer reaches a k-th allocation; kind 2/3 = hash / equality throws for a designated key; kind 4 = the k-th copy construction of an element from the caller\'s arguments throws; kind 5 = the functor throws after a partial effect. Checked: the exception reaches the caller, contents and size unchanged (functor: preceding insertion and partial effect remain), failed rehash/reserve keep the hashpower, no lock held, follow-up operations and destruction work, allocation and object balance equal the unfaulted control child. evaluations = fault positions tried, non-trivial = positions where the fault fired' % [t1.cfg_name(c) for c in cfgs],
                samples=sample or ['(none fired)'], fired_by_kind=kinds, scripts=len(jobs),
                known_findings=sorted(known_hits.keys()), gen_changed=changed)
-    write_evidence(pid, tier, seed, cov, time.time() - t0, violations, TRUSTED_BASE)
+    write_evidence(pid, tier, seed, cov, time.time() - t0, violations, TRUSTED_BASE, level='fault_enumeration')
     if not violations: shutil.rmtree(keep, ignore_errors=True)
     return 1 if violations else 0
 
